@@ -123,15 +123,29 @@ def gen_case(tape, tier):
             fname = tape.pick(sorted(fns), "scenario-fn")
             fd = next(f for f in w["functions"] if f["name"] == fname)
             par = tape.pick(fd["params"], "scenario-param")
-            kind = tape.pick(["update_bound", "update_bound", "update_defaults"], "scenario-kind")
+            kind = tape.pick(["update_bound", "update_bound", "update_defaults", "swap_renames"], "scenario-kind")
             vk = tape.pick(["str", "float", "floatlist"], "scenario-vkind")
             v0 = tape.choose(2, "value")
             wipe = [{"op": "disk_wipe"}] if ctype == "disk" and tape.coin(0.5, "scenario-wipe") else []
-            ops = [c0, {"op": kind, "fn": fd["name"], "param": par, "value": v0, "vkind": vk}, {"op": "repeat"}, *wipe,
-                   {"op": kind, "fn": fd["name"], "param": par, "value": 1 - v0, "vkind": vk}, {"op": "repeat"}]
+            swappable = [q for q in fd["params"] if q in w["inputs"] and w["inputs"][q]["kind"] == "scalar"
+                         and q not in fd.get("bound", {})]
+            if kind == "swap_renames" and len(swappable) >= 2 and c0["kwargs"].get(swappable[0]) is not None \
+                    and c0["kwargs"].get(swappable[1]) is not None:
+                # the function-level renames of two root arguments are exchanged: same names, other wiring
+                c0 = dict(c0, kwargs=dict(c0["kwargs"], **{swappable[0]: 0, swappable[1]: 1}))
+                sw = {"op": "swap_renames", "fn": fd["name"], "a": swappable[0], "b": swappable[1]}
+                ops = [c0, sw, {"op": "repeat"}, *wipe, sw, {"op": "repeat"}]
+            else:
+                if kind == "swap_renames":
+                    kind = "update_bound"
+                ops = [c0, {"op": kind, "fn": fd["name"], "param": par, "value": v0, "vkind": vk}, {"op": "repeat"}, *wipe,
+                       {"op": kind, "fn": fd["name"], "param": par, "value": 1 - v0, "vkind": vk}, {"op": "repeat"}]
     roots = [n for n, d in w["inputs"].items() if d["kind"] == "scalar"]
     array_roots = [r for r in roots if tape.coin(0.2, "array-root")]
-    return {"part": "A", "workload": w, "cached": cached, "cache": cache, "ops": ops, "array_roots": array_roots}
+    case = {"part": "A", "workload": w, "cached": cached, "cache": cache, "ops": ops, "array_roots": array_roots}
+    if ctype in ("simple", "lru") and not cache["shared"] and tape.coin(0.25, "lazy"):
+        case["lazy"] = True  # Pipeline(lazy=True): calls return lazy values, evaluated by the caller
+    return case
 
 
 def gen_case_B(tape, tier):
@@ -280,13 +294,16 @@ def run_A(case, tape, clear_on_mutation=False):
 
             ctype, ckw = cache_kwargs(case["cache"], root)
             try:
-                cached = build_pipeline(w, cached=set(case["cached"]), cache_type=ctype, cache_kwargs=ckw)
-                twin = build_pipeline(w)
+                lz = {"lazy": True} if case.get("lazy") else {}
+                cached = build_pipeline(w, cached=set(case["cached"]), cache_type=ctype, cache_kwargs=ckw, **lz)
+                twin = build_pipeline(w, **lz)
             except Exception:  # noqa: BLE001 - refused construction is not this property's business
                 probes["discarded_construction"] = 1
                 return
             if cached.cache is None:
                 probes["no_cache_object"] = 1
+            if case.get("lazy"):
+                probes["lazy_pipeline"] = 1
             prev = None
             array_roots = tuple(case.get("array_roots", ()))
             distinct_keys = set()
@@ -313,8 +330,14 @@ def run_A(case, tape, clear_on_mutation=False):
 
                     def invoke(p):
                         if kind == "call":
-                            return p(op2["output"], **kw)
-                        return p.run(op2["output"], full_output=True, kwargs=dict(kw))
+                            r = p(op2["output"], **kw)
+                        else:
+                            r = p.run(op2["output"], full_output=True, kwargs=dict(kw))
+                        if case.get("lazy"):
+                            from pipefunc.lazy import evaluate_lazy
+
+                            r = evaluate_lazy(r)
+                        return r
 
                     try:
                         exp = invoke(twin)
@@ -410,6 +433,23 @@ def run_A(case, tape, clear_on_mutation=False):
                     if clear_on_mutation and cached.cache is not None:
                         cached.cache.clear()
                     probes[kind] = probes.get(kind, 0) + 1
+                elif kind == "swap_renames":
+                    def mut(p, _is_cached):
+                        p[fn_out[op2["fn"]]].update_renames({op2["a"]: op2["b"], op2["b"]: op2["a"]}, update_from="current")
+
+                    st = _mutate_both(mut, twin, cached)
+                    if st == "skip":
+                        probes["history_cut_at_refused_mutation"] = 1
+                        return
+                    if st == "asymmetric":
+                        probes["discarded_asymmetric_mutation"] = 1
+                        return
+                    hist_flags["mutated_before"].add("swap_renames")
+                    hist_flags["mutated_since_prev"] = True
+                    epoch[0] += 1
+                    if clear_on_mutation and cached.cache is not None:
+                        cached.cache.clear()
+                    probes["swap_renames"] = probes.get("swap_renames", 0) + 1
                 elif kind == "disk_wipe":
                     d = os.path.join(root, "diskcache")
                     if os.path.isdir(d):
@@ -622,7 +662,7 @@ def run_case(case, exec_seed=None, exec_tape=None):
     tape = Tape(exec_seed) if exec_tape is None else Tape(recorded=exec_tape)
     if case["part"] == "A":
         viol, probes, sim = run_A(case, tape)
-        if viol and any(o["op"] in ("update_defaults", "update_bound", "replace") for o in case["ops"]):
+        if viol and any(o["op"] in ("update_defaults", "update_bound", "replace", "swap_renames") for o in case["ops"]):
             # executable predicate for the known finding "mutations do not invalidate cached results": does the
             # violation vanish when the harness clears the cache at every mutation (the hypothetical repair)?
             C.begin_case()
